@@ -8,7 +8,8 @@ Import ListNotations.
 Open Scope nat_scope.
 
 Definition rok (input : bytes) (r : reader) : Prop :=
-  stream_inv input (rbw r) (rrd r) /\ no_fail (sched (rrd r)).
+  stream_inv input (rbw r) (rrd r) /\ no_fail (sched (rrd r)) /\
+  (cap (rbw r) = 0 \/ length (win (rbw r)) <= cap (rbw r)).
 
 Definition capok (b : bufwin) (d : rd) (n : nat) : Prop :=
   (cap b = 0 /\ rest d = []) \/ (0 < cap b /\ n <= cap b).
@@ -34,7 +35,7 @@ Lemma fill_cases b d : no_fail (sched d) ->
   match bw_fill_buf b d with
   | FillOk n b' d' => exists bs, length bs = n /\ rest d = bs ++ rest d' /\ win b' = win b ++ bs /\
         cap b' = cap b /\ bw_position b' = bw_position b /\ no_fail (sched d') /\
-        (n = 0 -> cap b = 0 \/ rest d = [])
+        (n = 0 -> cap b = 0 \/ rest d = []) /\ (cap b = 0 \/ length (win b') <= cap b)
   | FillIo _ _ => False
   | FillFull _ _ => 0 < cap b <= length (win b)
   end.
@@ -42,7 +43,7 @@ Proof.
   intros Hnf. unfold bw_fill_buf.
   destruct (Nat.leb (cap b) (length (win b))) eqn:Hfull.
   - apply Nat.leb_le in Hfull. destruct (Nat.eqb (cap b) 0) eqn:Hz.
-    + apply Nat.eqb_eq in Hz. exists []. rewrite app_nil_r. cbn [app length]. auto 10.
+    + apply Nat.eqb_eq in Hz. exists []. rewrite app_nil_r. cbn [app length]. auto 12.
     + apply Nat.eqb_neq in Hz. lia.
   - apply Nat.leb_gt in Hfull.
     destruct (rd_read d (cap b - length (win b))) as [[bs d']| | | |] eqn:Hrd.
@@ -51,7 +52,8 @@ Proof.
       split; [unfold bw_position; cbn [prior consumed]; lia|]. split.
       * unfold rd_read in Hrd. destruct (match sched d with [] => _ | e :: _ => e end); [|discriminate].
         inversion Hrd; subst. cbn [sched]. intros Hin. apply Hnf. destruct (sched d); [exact Hin|right; exact Hin].
-      * intros H0. destruct (Hz H0) as [Hf|Hr]; [lia|right; exact Hr].
+      * split; [intros H0; destruct (Hz H0) as [Hf|Hr]; [lia|right; exact Hr]|].
+        right. rewrite app_length. lia.
     + unfold rd_read in Hrd. destruct (sched d) as [|ev sc] eqn:Es; [discriminate|].
       destruct ev; [discriminate|]. apply Hnf. left. reflexivity.
     + unfold rd_read in Hrd. destruct (match sched d with [] => _ | e :: _ => e end); discriminate.
@@ -64,10 +66,11 @@ Lemma rok_advance input b d bom bom' adv :
   bw_advance b adv = Ok (mkbw (cap b) (skipn adv (win b)) (consumed b + adv) (prior b)) /\
   rok input (mkreader (mkbw (cap b) (skipn adv (win b)) (consumed b + adv) (prior b)) d bom').
 Proof.
-  intros [(pre & Hin & Hlen) Hnf] Hadv. cbn [rbw rrd] in *. split.
+  intros [(pre & Hin & Hlen) [Hnf Hwin]] Hadv. cbn [rbw rrd] in *. split.
   - unfold bw_advance. replace (Nat.ltb (length (win b)) adv) with false; [reflexivity|].
     symmetry. apply Nat.ltb_ge. exact Hadv.
-  - split; [|exact Hnf]. cbn [rbw rrd]. exists (pre ++ firstn adv (win b)). cbn [win]. split.
+  - split; [|split; [exact Hnf|cbn [rbw cap win]; rewrite skipn_length; lia]].
+    cbn [rbw rrd]. exists (pre ++ firstn adv (win b)). cbn [win]. split.
     + rewrite <- app_assoc. rewrite (app_assoc (firstn adv (win b))), firstn_skipn. exact Hin.
     + rewrite app_length, firstn_length. unfold bw_position in *. cbn [prior consumed]. lia.
 Qed.
@@ -90,14 +93,15 @@ Proof.
   intros Hrok Hc cb b1.
   assert (Hcb : length cb = c) by (unfold cb; rewrite skipn_length; lia).
   split; [exact Hcb|].
-  destruct (rok_advance input b d bom bom (length (win b) - c) Hrok ltac:(lia)) as [_ [Hinv Hnf]].
+  destruct (rok_advance input b d bom bom (length (win b) - c) Hrok ltac:(lia)) as [_ [Hinv [Hnf Hwin]]].
   fold cb in Hinv. fold b1 in Hinv. cbn [rbw rrd] in Hinv, Hnf.
   pose proof (fill_cases b1 d Hnf) as H. pose proof (fill_buf_preserves input b1 d Hinv) as Hp.
   destruct (bw_fill_buf b1 d) as [n b2 d2|b2 d2|b2 d2]; [|exact H|].
-  - destruct H as (bs & H1 & H2 & H3 & H4 & H5 & H6 & H7). exists bs.
+  - destruct H as (bs & H1 & H2 & H3 & H4 & H5 & H6 & H7 & H8). exists bs.
     split; [exact H1|]. split; [exact H2|]. split; [exact H3|]. split; [exact H4|].
     split; [rewrite H5; unfold bw_position, b1; cbn [prior consumed]; lia|].
-    split; [|exact H7]. intros bom'. split; [exact (proj1 Hp)|exact H6].
+    split; [|exact H7]. intros bom'. split; [exact (proj1 Hp)|]. split; [exact H6|].
+    cbn [rbw]. rewrite H4. exact H8.
   - unfold b1 in H. cbn [cap win] in H. lia.
 Qed.
 
@@ -205,7 +209,7 @@ Proof.
            destruct (rok_advance input b2 d2 bom bom c (Hrok2 bom) ltac:(rewrite Hw2; lia)) as [Hadv Hr3].
            rewrite Hadv. eexists. split; [reflexivity|]. split; [exact Hr3|].
            unfold stream_of. cbn [rbw rrd win with_bw]. rewrite Hw2, Hr2, app_nil_r. apply skipn_all2. lia.
-      * cbn [fst stepres]. subst k0. pose proof (item_eof_nothash _ _ _ _ Ei) as Hh.
+      * cbn [fst stepres]. destruct Hit as [Hk0 _]. subst k0. pose proof (item_eof_nothash _ _ _ _ Ei) as Hh.
         destruct cb as [|c0 cb']; [contradiction|]. rewrite Hh.
         replace (Nat.eqb c 0) with false by (symmetry; apply Nat.eqb_neq; cbn [length] in Hcb; lia).
         cbn [orb]. eexists. split; [reflexivity|]. split; [apply Hrok2|].
@@ -244,7 +248,7 @@ Proof.
       rewrite Hstream in *.
       destruct (fb _ _ _ _ _ _) as [a bom'] eqn:Efb. destruct Hfb as [Hb1 Hfb]. cbn [fst snd] in Hb1, Hfb.
       destruct a as [st' c' o'|t adv|site]; [| |contradiction].
-      * destruct Hfb as (Hc' & Hp' & Hb2 & (m & Hm)).
+      * destruct Hfb as (Hc' & Hp' & Hb2 & (m & Hmle & Hm)).
         rewrite Hm, fst_bump.
         replace (cap b) with (cap (rbw (mkreader b2 d2 bom'))) by exact Hcap2.
         apply (stepres_mono _ _ (length (rest (rrd (mkreader b2 d2 bom'))))); [cbn [rrd]; rewrite Hsplit, app_length; lia|].
@@ -265,7 +269,7 @@ Proof.
               replace (Nat.eqb (bw_position b2 + (length (win b2) - c')) 0) with false; [reflexivity|].
               symmetry. apply Nat.eqb_neq. lia.
         -- eapply capok_mono; [exact Hcap|exact Hcap2| |exact Hrn]. rewrite Hm. apply snd_bump.
-      * destruct Hfb as (k & m & Hadv & Hk & Hm). cbn [Nat.add] in Hadv. subst adv.
+      * destruct Hfb as (k & m & Hadv & Hk & Hmle & Hm). cbn [Nat.add] in Hadv. subst adv.
         rewrite Hm. cbn [fst stepres]. unfold emit. cbn [rbw].
         destruct (rok_advance input b2 d2 bom' bom' k (Hrok2 bom') ltac:(lia)) as [Hadv Hr3].
         rewrite Hadv. eexists. split; [reflexivity|]. split; [exact Hr3|].
@@ -391,7 +395,7 @@ Proof.
   rewrite Nat.eqb_refl, andb_true_r in Hfb.
   destruct (fb _ _ _ _ _ _) as [a bom'] eqn:Efb. destruct Hfb as [Hb1 Hfb]. cbn [fst snd] in Hb1, Hfb.
   destruct a as [st' c' o'|t adv|site]; [| |contradiction].
-  - destruct Hfb as (Hc' & Hp' & Hb2 & (m & Hm)). rewrite Hm, fst_bump.
+  - destruct Hfb as (Hc' & Hp' & Hb2 & (m & Hmle & Hm)). rewrite Hm, fst_bump.
     apply (refill_spec input (length (rest d)) fuel (mkreader b d bom') st' c' o'); cbn [rbw rrd rbom].
     + lia.
     + lia.
@@ -400,7 +404,7 @@ Proof.
     + exact Hp'.
     + intros Hs. unfold reader_position. cbn [rbw]. apply start_after; [exact Hc'|exact Hb1|apply Hb2; exact Hs].
     + eapply capok_mono; [exact Hcap|reflexivity| |auto]. rewrite Hm. apply snd_bump.
-  - destruct Hfb as (k & m & Hadv & Hk & Hm). cbn [Nat.add] in Hadv. subst adv.
+  - destruct Hfb as (k & m & Hadv & Hk & Hmle & Hm). cbn [Nat.add] in Hadv. subst adv.
     rewrite Hm. cbn [fst stepres]. unfold emit. cbn [rbw].
     assert (Hrok' : rok input (mkreader b d bom')) by (destruct Hrok as [H1 H2]; split; [exact H1|exact H2]).
     destruct (rok_advance input b d bom' bom' k Hrok' ltac:(lia)) as [Hadv Hr3].
@@ -512,7 +516,7 @@ Proof.
   intros input Hwf. unfold run_slice, tokens_of, leftover, ref_tokens.
   change (ref_run (S (length input)) true input) with (rr true input).
   apply (run_spec input Hwf).
-  - split; [|intros H; exact H]. exists []. cbn. rewrite app_nil_r. auto.
+  - split; [|split; [intros H; exact H|left; reflexivity]]. exists []. cbn. rewrite app_nil_r. auto.
   - left. split; [unfold stream_of; cbn; rewrite app_nil_r; reflexivity|reflexivity].
   - lia.
   - unfold default_fuel. lia.
@@ -526,7 +530,7 @@ Proof.
   intros input sch capv Hwf Hnf Hneed. unfold run_stream, tokens_of, leftover, need, ref_tokens in *.
   change (ref_run (S (length input)) true input) with (rr true input) in *.
   apply (run_spec input Hwf).
-  - split; [|exact Hnf]. exists []. cbn. auto.
+  - split; [|split; [exact Hnf|right; cbn; lia]]. exists []. cbn. auto.
   - left. split; reflexivity.
   - cbn. lia.
   - unfold default_fuel. lia.
